@@ -117,3 +117,26 @@ func DecodeTable(data []byte) ([]int8, error) {
 	table := make([]int8, 2<<uint(precision))
 	return table, nil
 }
+
+// trailer reads a two-byte locator from the end of a block: SLICE-LENREL controls.
+func trailer(block []byte) int {
+	n := len(block)
+	return int(block[n-1])<<4 | int(block[n-2]&0x0F) // SLICE-LENREL: block[len-2] violated via DecodeBlock (only len >= 1 established)
+}
+
+// DecodeBlock is an exported entry point that only rejects the empty block.
+func DecodeBlock(block []byte) (int, error) {
+	if len(block) == 0 {
+		return 0, errBad
+	}
+	return trailer(block), nil
+}
+
+// DecodeBlockChecked establishes the length the trailer needs before reading it.
+func DecodeBlockChecked(block []byte) (int, error) {
+	if len(block) < 2 {
+		return 0, errBad
+	}
+	n := len(block)
+	return int(block[n-1])<<4 | int(block[n-2]&0x0F), nil // SLICE-LENREL: discharged
+}
